@@ -117,11 +117,25 @@ func c04Child(ctx *runCtx, spec string) {
 	var lru int
 	fmt.Sscanf(spec, "N=%d R=%d ts=%d lru=%d scripts=%d seed=%d", &n, &r, &ts, &lru, &scripts, &seed)
 	ccfg := cluster.Config{Replicas: r, Partitions: 7, TableSize: ts, WriteQuorum: 1, EvictionWorkers: 1}
-	if lru == 1 {
+	if lru >= 1 {
 		ccfg.DMaps = func(d *config.DMaps) {
 			d.EvictionPolicy = config.LRUEviction
 			d.MaxKeys = 14 // 7 partitions over n members: a handful of keys per fragment
 			d.LRUSamples = 5
+			switch lru {
+			case 2:
+				d.MaxKeys = 3 // fewer keys than owned partitions: every fragment holds one key
+			case 3:
+				d.LRUSamples = 1 // the eviction sample is a single key
+			}
+		}
+	}
+	if ts <= 4096 {
+		// few partitions and large values: a fragment rolls over to a new table every few
+		// writes, so that a key is overwritten after its table filled up
+		ccfg.Partitions = 3
+		if n > 3 {
+			ccfg.Partitions = 5 // fewer partitions than members is a configuration the hash ring rejects
 		}
 	}
 	c, err := cluster.Start(ccfg, n)
@@ -139,7 +153,7 @@ func c04Child(ctx *runCtx, spec string) {
 		router := paths.NewRouter(c, name)
 		sess := router.NewSession()
 		nkeys := 6
-		if lru == 1 {
+		if lru >= 1 {
 			nkeys = 40
 		}
 		keys := make([]string, nkeys)
@@ -149,8 +163,11 @@ func c04Child(ctx *runCtx, spec string) {
 		locks := map[string]paths.Lock{}
 		var script []c04Step
 		steps := 12 + rng.Intn(19)
-		if lru == 1 {
+		if lru >= 1 {
 			steps = 60
+		}
+		if ts <= 4096 {
+			steps = 40 + rng.Intn(30)
 		}
 		counter := 0
 		violated := false
@@ -161,12 +178,15 @@ func c04Child(ctx *runCtx, spec string) {
 			cl := sess.Via(kind)
 			counter++
 			val := []byte(fmt.Sprintf("v%d-%s", counter, strings.Repeat("x", rng.Intn(40))))
+			if ts <= 4096 {
+				val = []byte(fmt.Sprintf("v%d-%s", counter, strings.Repeat("x", 150+rng.Intn(200))))
+			}
 			step := c04Step{Key: key, Path: kind}
 			var err error
 			cx, cancel := context.WithTimeout(bg, 20*time.Second)
 			x := rng.Intn(100)
-			if lru == 1 {
-				x = rng.Intn(35) // puts mostly, to push fragments over their share
+			if lru >= 1 {
+				x = rng.Intn(42) // puts mostly, to push fragments over their share; some Expire / GetPut
 			}
 			switch {
 			case x < 30:
@@ -399,6 +419,8 @@ func c04Run(ctx *runCtx) int {
 	}
 	batches = append(batches, batch{Spec: fmt.Sprintf("N=3 R=2 ts=1048576 lru=1 scripts=%d seed=%d", lruScripts, ctx.seed*1000+50), Timeout: 20 * time.Minute})
 	batches = append(batches, batch{Spec: fmt.Sprintf("N=4 R=3 ts=1024 lru=1 scripts=%d seed=%d", lruScripts, ctx.seed*1000+51), Timeout: 20 * time.Minute})
+	batches = append(batches, batch{Spec: fmt.Sprintf("N=3 R=2 ts=1048576 lru=2 scripts=%d seed=%d", lruScripts, ctx.seed*1000+52), Timeout: 20 * time.Minute})
+	batches = append(batches, batch{Spec: fmt.Sprintf("N=3 R=3 ts=1048576 lru=3 scripts=%d seed=%d", lruScripts, ctx.seed*1000+53), Timeout: 20 * time.Minute})
 	runBatches(ctx, batches, 6, func(b batch, res batchResult, tail string) {
 		ctx.rep.Violate("c04|member-crashed-or-hung", fmt.Sprintf("child %s died (exit %d timeout=%v): %s", b.Spec, res.ExitCode, res.TimedOut, lastLines(tail, 12)), map[string]interface{}{"batch": b.Spec})
 	})
